@@ -382,6 +382,14 @@ impl<A: Model, B: Model> Model for (A, B) {
         MV::l(vec![self.0.to_model(), self.1.to_model()])
     }
 }
+impl<A: Model> Model for std::ops::Range<A> {
+    fn from_model(v: &MV) -> Self {
+        A::from_model(&v.vs[0])..A::from_model(&v.vs[1])
+    }
+    fn to_model(&self) -> MV {
+        MV::l(vec![self.start.to_model(), self.end.to_model()])
+    }
+}
 impl<A: Model, B: Model, C: Model> Model for (A, B, C) {
     fn from_model(v: &MV) -> Self {
         (A::from_model(&v.vs[0]), B::from_model(&v.vs[1]), C::from_model(&v.vs[2]))
